@@ -476,6 +476,12 @@ pub fn build_session(c: &HashMap<&str, &str>, objs: &[Vec<&str>]) -> Option<Sess
     if fdtmut != "-" {
         genuine = rewrite_fdt(&genuine, &session_oti, fdtmut);
     }
+    // optional rewrite of the object packets (a foreign sender): pktmut=ftilast re-encodes every
+    // object packet WITHOUT EXT_FTI and appends a copy of the last one WITH EXT_FTI whose source
+    // block number is out of range
+    if c.get("pktmut").copied().unwrap_or("-") == "ftilast" {
+        genuine = rewrite_pkts_ftilast(&genuine, &obj_oti);
+    }
     // FDT oracle table: reassemble every instance from the genuine TOI-0 packets
     let mut parts: HashMap<u32, std::collections::BTreeMap<(u32, u32), Vec<u8>>> = HashMap::new();
     for d in &genuine {
@@ -515,6 +521,56 @@ fn strip_attrs(xml: &str, prefix: &str) -> String {
         }
     }
     out.push_str(rest);
+    out
+}
+
+fn rewrite_pkts_ftilast(g: &[Vec<u8>], obj_oti: &Oti) -> Vec<Vec<u8>> {
+    use flute::verif_hooks::{alc, pkt};
+    let mut no_fti = obj_oti.clone();
+    no_fti.inband_fti = false;
+    let mut with_fti = obj_oti.clone();
+    with_fti.inband_fti = true;
+    let mut out = Vec::new();
+    let mut last: Option<pkt::Pkt> = None;
+    for d in g {
+        let p = match flute::core::alc::parse_alc_pkt(d) {
+            Ok(p) => p,
+            Err(_) => {
+                out.push(d.clone());
+                continue;
+            }
+        };
+        if p.lct.toi == 0 {
+            out.push(d.clone());
+            continue;
+        }
+        let pid = match flute::core::alc::parse_payload_id(&p, obj_oti) {
+            Ok(x) => x,
+            Err(_) => {
+                out.push(d.clone());
+                continue;
+            }
+        };
+        let tl = p.transfer_length.unwrap_or(0);
+        let mk = |sbn: u32, esi: u32| pkt::Pkt {
+            payload: d[p.data_payload_offset..].to_vec(),
+            transfer_length: tl,
+            esi,
+            sbn,
+            toi: p.lct.toi,
+            fdt_id: None,
+            cenc: p.cenc.unwrap_or(Cenc::Null),
+            inband_cenc: p.cenc.is_some(),
+            close_object: false,
+            source_block_length: pid.source_block_length.unwrap_or(0),
+            sender_current_time: false,
+        };
+        out.push(alc::new_alc_pkt(&no_fti, &0u128, 1, &mk(pid.sbn, pid.esi), flute::sender::Profile::RFC6726, t_ms(0)));
+        last = Some(mk(0xFFFF, 0));
+    }
+    if let Some(l) = last {
+        out.push(alc::new_alc_pkt(&with_fti, &0u128, 1, &l, flute::sender::Profile::RFC6726, t_ms(0)));
+    }
     out
 }
 
